@@ -157,6 +157,8 @@ func runC05(c *core.Ctx) {
 		*first = snap
 		c.NativeCheck(1)
 	}
+	var prevOut string
+	var prevCopy []byte
 	emitRound := func(class string, k *keyid.KeyID) {
 		var out string
 		var err error
@@ -165,6 +167,15 @@ func runC05(c *core.Ctx) {
 		if p, msg := core.Guard(func() {
 			out, err = k.Marshal()
 			if err == nil {
+				// a text handed out earlier stays what it was, whatever is encoded afterwards
+				if prevOut != "" && prevOut != string(prevCopy) {
+					c.Native("the text returned by an earlier KeyID.Marshal call changed after a later Marshal call",
+						map[string]interface{}{"returned_then": string(prevCopy), "reads_now": strings.Clone(prevOut)})
+					prevOut = ""
+				} else if prevOut != "" {
+					c.NativeCheck(1)
+				}
+				prevOut, prevCopy = out, []byte(out)
 				back, berr = keyid.Unmarshal(out)
 				if berr == nil {
 					redecode(out, back)
